@@ -30,7 +30,34 @@ def U(name, src, harness, enforce, serves, **kw):
     return d
 
 
+A = 'contracts/accessors.c'
+
+
+def acc(fn, serves=('C11', 'C13', 'C18')):
+    return U(fn.replace('__', '_'), A, 'h_' + fn, ['%s/contract_%s' % (fn, fn)], list(serves), timeout=120)
+
+
+CC = 'contracts/copyctors.c'
+
+FR = 'contracts/frame.c'
+
 UNITS = [
+    U('Frame_ctor', FR, 'h_Frame_ctor', ['Frame__ctor/contract_Frame__ctor'],
+      ['C06', 'C08', 'C10', 'C13', 'C18'], unwind=5, timeout=120),
+    U('Frame_add_Points', FR, 'h_Frame_add_Points', ['Frame__add__Points/contract_Frame__add__Points'],
+      ['C01', 'C06', 'C08', 'C10', 'C13', 'C18'], replace=['vf_vec_Point_ctor_copy/contract_vf_vec_Point_ctor_copy'],
+      unwind=5, timeout=300, assumes=['contract of vf_vec_Point_ctor_copy (element-wise Point copy) is assumed, not '
+                                      'verified against the model body']),
+    U('Frame_add_Analogs', FR, 'h_Frame_add_Analogs', ['Frame__add__Analogs/contract_Frame__add__Analogs'],
+      ['C01', 'C06', 'C08', 'C10', 'C13', 'C18'], replace=['vf_vec_SubFrame_ctor_copy/contract_vf_vec_SubFrame_ctor_copy'],
+      unwind=5, timeout=300, assumes=['contract of vf_vec_SubFrame_ctor_copy (element-wise SubFrame copy) is assumed, '
+                                      'not verified against the model body']),
+    U('Point_copy', CC, 'h_Point_copy', ['Point__ctor__Point/contract_Point__ctor__Point'],
+      ['C01', 'C06', 'C08', 'C10', 'C13', 'C18'], replace=['vf_string_ctor_copy/contract_vf_string_ctor_copy'],
+      unwind=5, timeout=120),
+    U('Channel_copy', CC, 'h_Channel_copy', ['Channel__ctor__Channel/contract_Channel__ctor__Channel'],
+      ['C01', 'C06', 'C08', 'C10', 'C13', 'C18'], replace=['vf_string_ctor_copy/contract_vf_string_ctor_copy'],
+      unwind=5, timeout=120),
     U('hex2uint', K, 'h_hex2uint', ['c3d__hex2uint/contract_c3d__hex2uint'],
       ['C02', 'C12', 'C13', 'C18', 'C19'], unwind=6, timeout=120),
     U('hex2int', K, 'h_hex2int', ['c3d__hex2int/contract_c3d__hex2int'],
@@ -49,4 +76,10 @@ UNITS = [
       ['Header__nbAnalogByFrame__sz/contract_B_Header__nbAnalogByFrame__sz'],
       ['C05'], level='B', bound='sub-frames, samples per frame and new sub-frame count <= 255 (non-linear clause)',
       timeout=240),
-]
+] + [acc(f) for f in (
+    'Data__frame__sz', 'Data__frame_nonConst', 'Points__point__sz', 'Points__point_nonConst__sz',
+    'Analogs__subframe__sz', 'Analogs__subframe_nonConst', 'SubFrame__channel__sz', 'SubFrame__channel_nonConst__sz',
+    'Parameters__group__sz', 'Parameters__group_nonConst__sz', 'Group__parameter__sz', 'Group__parameter_nonConst__sz',
+    'Header__eventsLabel__sz', 'Header__eventsTime__sz', 'Header__eventsDisplay__sz',
+    'Parameter__valuesAsByte', 'Parameter__valuesAsInt', 'Parameter__valuesAsFloat', 'Parameter__valuesAsString')
+] + [acc(f, ('C09', 'C10', 'C13', 'C18')) for f in ('Parameter__lock', 'Parameter__unlock', 'Group__lock', 'Group__unlock')]
